@@ -313,6 +313,13 @@ def run_batch(jobs, hashseed, cwd, kind=''):
     env.pop('C07_STDOUT_ENC', None)
     if 'clock' in flags:
         env['C07_CLOCK'] = str(CLOCK_2031)
+        # ... on a narrow terminal (what a tool asks the environment about its
+        # screen must not shape the output either)
+        env['COLUMNS'] = '40'
+        env['LINES'] = '12'
+    else:
+        env.pop('COLUMNS', None)
+        env.pop('LINES', None)
     for f in flags:
         if f.startswith('enc:'):
             env['C07_STDOUT_ENC'] = f[4:]
@@ -558,6 +565,13 @@ def check_library(case):
 
 
 # ----------------------------------- library, every random outcome (xp) --
+def _refusal_or(f):
+    try:
+        return f()
+    except ValueError as e:
+        return 'ValueError: %s' % (str(e)[:80],)
+
+
 def xlib_calls():
     """Small seeded library calls whose complete outcome space is explored:
     name -> callable(seed).  Sizes are chosen so that the rarely taken paths
@@ -614,6 +628,12 @@ def xlib_calls():
             lambda s: (lambda G: (g.split_random_edges(G, 1, s), sorted(G.edges()))[1])(g.Graph.complete_graph(3)),
         'RandomKCNF:1,2,2:positional': lambda s: [list(c) for c in RandomKCNF(1, 2, 2, s).clauses()],
         'RandomKXOR:1,2,2:positional': lambda s: [list(c) for c in RandomKXOR(1, 2, 2, s).clauses()],
+        # planted assignments that do not mention every variable: refused or
+        # not, the same answer for the same seed
+        'RandomKXOR:2,3,2:partial-planted': lambda s: _refusal_or(
+            lambda: [list(c) for c in RandomKXOR(2, 3, 2, seed=s, planted_assignments=[[1, -2]]).clauses()]),
+        'RandomKCNF:2,3,2:partial-planted': lambda s: _refusal_or(
+            lambda: [list(c) for c in RandomKCNF(2, 3, 2, seed=s, planted_assignments=[[-3]]).clauses()]),
         'RandomKCNF:1,2,2': lambda s: [list(c) for c in RandomKCNF(1, 2, 2, seed=s).clauses()],
         'RandomKCNF:2,2,2': lambda s: [list(c) for c in RandomKCNF(2, 2, 2, seed=s).clauses()],
         'RandomKCNF:1,2,2:planted': lambda s: [list(c) for c in RandomKCNF(
